@@ -978,6 +978,9 @@ def read(rel):
         return fh.read()
 
 
+REFUSALS = []
+
+
 def main():
     changed = []
     _, calls = translate_callables(read("valida/callables.py"))
@@ -1012,17 +1015,31 @@ def main():
     import copy as _copy
     global PARSER_FAMILY
     fam = _copy.deepcopy(PARSER_FAMILY)
+
+    def refused_file(name, ex):
+        """The two abstraction generators feed one property each: a refusal there breaks that property's obligations only
+        (the generated file does not compile, so everything that depends on it is reported as a broken obligation)."""
+        REFUSALS.append((name, str(ex)))
+        return ("(* TRANSLATOR REFUSED: the source left the fragment the abstraction understands.\n   " + str(ex).replace("*)", "* )")[:1500] +
+                " *)\nFrom Coq Require Import String.\nDefinition translator_refused : True := \"refused\"%string.\n")
     try:
         parsers = translate_parsers()
+        text = ("(* GENERATED by harness/translate.py: the spec parsers abstracted to the operations of the aliasing analysis\n"
+                "   (Taint.v) -- do not edit *)\nFrom Coq Require Import List String Bool.\nFrom Valida Require Import Taint.\n"
+                "Import ListNotations.\nLocal Open Scope string_scope.\n\n" + parsers)
+    except Refused as ex:
+        text = refused_file("Gen/ParsersGen.v", ex)
     finally:
         PARSER_FAMILY = fam
-    text = ("(* GENERATED by harness/translate.py: the spec parsers abstracted to the operations of the aliasing analysis\n"
-            "   (Taint.v) -- do not edit *)\nFrom Coq Require Import List String Bool.\nFrom Valida Require Import Taint.\n"
-            "Import ListNotations.\nLocal Open Scope string_scope.\n\n" + parsers)
     if write_if_changed(os.path.join(GEN_DIR, "ParsersGen.v"), text):
         changed.append("ParsersGen.v")
     from . import readonly
-    ro, _info = readonly.render()
+    try:
+        ro, _info = readonly.render()
+    except Refused as ex:
+        if write_if_changed(os.path.join(GEN_DIR, "ReadOnlyGen.v"), refused_file("Gen/ReadOnlyGen.v", ex)):
+            changed.append("ReadOnlyGen.v")
+        return changed
     text = ("(* GENERATED by harness/readonly.py: every function of valida that a validation call can reach, abstracted to the\n"
             "   operations of the aliasing analysis (Taint.v), with the summary the translator proposes for it (which parameters\n"
             "   it may write, and how deep); Coq re-checks every summary -- do not edit *)\n"
@@ -1039,4 +1056,6 @@ if __name__ == "__main__":
     except Refused as e:
         print(f"TRANSLATOR-REFUSED: {e}")
         sys.exit(3)
+    for name, msg in REFUSALS:
+        print(f"TRANSLATOR-REFUSED[{name}]: {msg[:600]}")
     print("translated; changed:", ch)
